@@ -477,7 +477,7 @@ func ruleKeyBinding(c *Ctx, encT *types.Named) {
 		c.Bad("R3", "encryptfs.NewEncryptFS", 0, "anchor not found")
 		return
 	}
-	facts := factsFor(nf)
+	_ = factsFor
 	// the key field is found by its role: the []byte field of EncryptFS handed to the cipher as key
 	keyField := ""
 	for _, f := range c.P.PkgFuncs(encPkg) {
@@ -506,7 +506,15 @@ func ruleKeyBinding(c *Ctx, encT *types.Named) {
 		c.Bad("R3", "key material in NewEncryptFS", nf.Pos(), "no store to the key field ("+keyField+"); cannot certify")
 		return
 	}
-	os := Origins(hashStore.Val, FlowOpts{})
+	stopAtHostID := func(v ssa.Value) (Origin, bool) {
+		if call, ok := v.(*ssa.Call); ok {
+			if f := call.Call.StaticCallee(); f != nil && strings.HasSuffix(qualName(f), "/idutil.HostID") {
+				return Origin{Kind: "call", Name: qualName(f) + "#0", Val: v}, true
+			}
+		}
+		return Origin{}, false
+	}
+	os := Origins(hashStore.Val, FlowOpts{Interproc: 2, Stop: stopAtHostID})
 	has := func(sub string) bool {
 		return hasOrigin(os, func(o Origin) bool { return strings.Contains(o.String(), sub) })
 	}
@@ -519,14 +527,17 @@ func ruleKeyBinding(c *Ctx, encT *types.Named) {
 	c.Check(len(missing) == 0, "R3", "key material uses every setting", hashStore.Pos(), "Secret, Salt and the host id all flow into the key material",
 		"the key material does not depend on "+strings.Join(missing, ", ")+" — a filespace with a different setting decrypts the data")
 	// host id only on the HostOnly edge
-	for _, ci := range Calls(nf) {
-		if ci.Static != nil && strings.HasSuffix(qualName(ci.Static), "/idutil.HostID") {
-			v, known := knownFieldBool(facts, ci.Block, "HostOnly")
-			c.Check(known && v, "R3", "host id bound only when HostOnly is set", ci.Pos(), "on the HostOnly edge", "the host id is mixed in regardless of HostOnly")
+	for _, hf := range append([]*ssa.Function{nf}, reachableSamePkg(nf, 2)...) {
+		facts := factsFor(hf)
+		for _, ci := range Calls(hf) {
+			if ci.Static != nil && strings.HasSuffix(qualName(ci.Static), "/idutil.HostID") {
+				v, known := knownFieldBool(facts, ci.Block, "HostOnly")
+				c.Check(known && v, "R3", "host id bound only when HostOnly is set", ci.Pos(), "on the HostOnly edge", "the host id is mixed in regardless of HostOnly")
+			}
 		}
 	}
 	// fresh buffer (no alias of the caller's slices)
-	aos := Origins(hashStore.Val, FlowOpts{Alias: true})
+	aos := Origins(hashStore.Val, FlowOpts{Alias: true, Interproc: 2, Stop: stopAtHostID})
 	fresh := allOrigins(aos, func(o Origin) bool { return o.Kind == "alloc" || o.Kind == "nil" || o.Kind == "zero" })
 	c.Check(fresh, "R3", "key material is a private buffer", hashStore.Pos(), "built by appending to a nil/fresh slice",
 		"the key material shares its backing store with "+originsString(aos)+" — appending the salt writes into the caller's secret slice, and two filespaces built from one secret corrupt each other's key")
@@ -603,18 +614,22 @@ func ruleCipherTag(c *Ctx) {
 	})
 	// read lengths
 	rlenStream, rlenData := int64(-1), int64(-1)
-	eachInstr(decR, func(_ *ssa.BasicBlock, _ int, in ssa.Instruction) {
-		if k := constMakeLen(in); k >= 0 {
-			rlenStream = k
-		}
-	})
-	eachInstr(dec, func(_ *ssa.BasicBlock, _ int, in ssa.Instruction) {
-		if sl, ok := in.(*ssa.Slice); ok && sl.High != nil && sl.Low == nil {
-			if k, ok := constInt(sl.High); ok {
-				rlenData = k
+	for _, g := range append([]*ssa.Function{decR}, privateHelpersOf(decR)...) {
+		eachInstr(g, func(_ *ssa.BasicBlock, _ int, in ssa.Instruction) {
+			if k := constMakeLen(in); k >= 0 && rlenStream < 0 {
+				rlenStream = k
 			}
-		}
-	})
+		})
+	}
+	for _, g := range append([]*ssa.Function{dec}, privateHelpersOf(dec)...) {
+		eachInstr(g, func(_ *ssa.BasicBlock, _ int, in ssa.Instruction) {
+			if sl, ok := in.(*ssa.Slice); ok && sl.High != nil && sl.Low == nil && rlenData < 0 {
+				if k, ok := constInt(sl.High); ok {
+					rlenData = k
+				}
+			}
+		})
+	}
 	okLen := wlen > 0 && wlen == rlenStream && wlen == rlenData
 	c.Check(okLen, "R6", "cipher tag length", toBin.Pos(), fmt.Sprintf("written %d = stream header %d = data header %d", wlen, rlenStream, rlenData),
 		fmt.Sprintf("tag length written %d, read from stream %d, read from data %d — reader and writer disagree on the header", wlen, rlenStream, rlenData))
@@ -691,6 +706,55 @@ func ruleCipherTag(c *Ctx) {
 				}
 			}
 			ok = okMiss && okHit
+		}
+		if lk == nil {
+			// the table lookup lives in a private helper h(key) (cipher, error): h fails on a miss and the
+			// caller dispatches only on h's nil error
+			for _, hc := range Calls(f) {
+				h := hc.Static
+				call, isCall := hc.Instr.(*ssa.Call)
+				if h == nil || !isCall || h.Pkg != f.Pkg || h.Blocks == nil || errResultIndex(h.Signature) < 0 {
+					continue
+				}
+				var hl ssa.Value
+				eachInstr(h, func(_ *ssa.BasicBlock, _ int, in ssa.Instruction) {
+					if l, isL := in.(*ssa.Lookup); isL {
+						if n, _ := fieldLoadName(l.X); n == "mapping" {
+							hl = l
+							if l.CommaOk {
+								hl = firstOr(resultN(l, 0))
+							}
+						}
+					}
+				})
+				if hl == nil {
+					continue
+				}
+				hf := factsFor(h)
+				ei := errResultIndex(h.Signature)
+				okH := true
+				for _, r := range returnsOf(h) {
+					// a possibly-nil error only where the looked-up cipher is known non-nil
+					if hf.HoldsOnAllEdges(r.Block(), func(fs factSet) bool { return knownNilIn(fs, r.Results[ei], false) }) {
+						continue
+					}
+					if !hf.HoldsOnAllEdges(r.Block(), func(fs factSet) bool { return knownNilIn(fs, hl, false) }) {
+						okH = false
+					}
+				}
+				okD := true
+				ev := firstOr(resultN(call, ei))
+				for _, ci := range Calls(f) {
+					if ci.Method != nil && (ci.Method.Name() == "Decrypt" || ci.Method.Name() == "DecryptReader") {
+						if ev == nil || !facts.HoldsOnAllEdges(ci.Block, func(fs factSet) bool { return knownNilIn(fs, ev, true) || nilThroughPhi(facts, fs, ev) }) {
+							okD = false
+						}
+					}
+				}
+				if okH && okD {
+					ok = true
+				}
+			}
 		}
 		c.Check(ok, "R6", "unknown cipher tag refused in "+fname(f), f.Pos(), "a table miss returns an error; dispatch only on a hit", "an unknown tag is not refused before dispatch (nil cipher dereference)")
 	}
@@ -949,4 +1013,43 @@ func helperMakesRandomBuffer(h *ssa.Function) bool {
 		okAny = true
 	}
 	return okAny
+}
+
+// nilThroughPhi: the facts say that a phi P is nil, P merges ev with other
+// values, and each of the other values is known non-nil on its incoming edge:
+// so P == nil can only have come through ev, i.e. ev == nil.
+func nilThroughPhi(facts *Facts, fs factSet, ev ssa.Value) bool {
+	for k := range fs {
+		bo, ok := k.v.(*ssa.BinOp)
+		if !ok || (bo.Op != token.EQL && bo.Op != token.NEQ) {
+			continue
+		}
+		other := bo.X
+		if isNilConst(bo.X) {
+			other = bo.Y
+		} else if !isNilConst(bo.Y) {
+			continue
+		}
+		if (bo.Op == token.EQL) != k.pol {
+			continue
+		}
+		p, ok := resolve(other).(*ssa.Phi)
+		if !ok {
+			continue
+		}
+		has, rest := false, true
+		for i, e := range p.Edges {
+			if resolve(e) == resolve(ev) {
+				has = true
+				continue
+			}
+			if !knownNilIn(factsOnEdge(facts, p.Block().Preds[i], p.Block()), e, false) {
+				rest = false
+			}
+		}
+		if has && rest {
+			return true
+		}
+	}
+	return false
 }
